@@ -232,6 +232,48 @@ def s_registered():
     return dict(r=S.pick("r", _R_MENU), td=S.pick("td", _TD_MENU), cx=S.pick("cx", _CX_MENU))
 
 
+def b_union_registered():
+    import datetime
+    from typing import Optional, Union
+
+    from .fixtures import Color
+
+    p = _ap()
+    p.add_argument("--u", type=Optional[Union[datetime.timedelta, Color]], default=None)  # a registered type written before an Enum
+    p.add_argument("--v", type=Optional[Union[Color, datetime.timedelta]], default=None)
+    return p
+
+
+_UR_MENU = None
+
+
+def s_union_registered():
+    global _UR_MENU
+    if _UR_MENU is None:
+        from .fixtures import Color
+
+        _UR_MENU = [None, Color.GREEN, _dt.timedelta(seconds=5), "RED", "0:00:07"]
+    return dict(u=S.pick("u", _UR_MENU), v=S.pick("v", _UR_MENU))
+
+
+def b_subcommands_empty():
+    p = _ap()
+    p.add_argument("--top", type=int, default=0)
+    a = _ap()
+    b = _ap()
+    b.add_argument("--x", type=int, default=1)
+    sc = p.add_subcommands()
+    sc.add_subcommand("a", a)  # a subcommand whose parser has no arguments: its section is an empty namespace
+    sc.add_subcommand("b", b)
+    return p
+
+
+def s_subcommands_empty():
+    if S.flag("choose_a"):
+        return dict(top=S.int("top", 0, 1), subcommand="a")
+    return dict(top=S.int("top", 0, 1), subcommand="b", b=dict(x=S.int("b.x", 0, 1)))
+
+
 def b_dataclass():
     from .fixtures import Outer
 
@@ -469,6 +511,8 @@ SHAPES = [
     Shape("set_small", b_set_small, s_set_small),
     Shape("restricted", b_restricted, s_restricted),
     Shape("registered", b_registered, s_registered, note="native"),
+    Shape("union_registered", b_union_registered, s_union_registered, note="native"),
+    Shape("subcommands_empty", b_subcommands_empty, s_subcommands_empty, note="native"),
     Shape("dataclass", b_dataclass, s_dataclass),
     Shape("dataclass_opt", b_dataclass_opt, s_dataclass_opt),
     Shape("subclass", b_subclass, s_subclass),
